@@ -262,6 +262,20 @@ func (x *sioCtx) edit(i int, op Op) string {
 		}
 		x.doc = nd
 		x.lastPath = ""
+	case "openrich":
+		// origin class "opened from a rich package": parts the library neither regenerates nor refers to from the main
+		// part's relationships (a header with its own relationship part and picture, a theme, a media part nothing refers to)
+		b, err := sioRichForeign()
+		if err != nil {
+			fmt.Fprintln(os.Stderr, "saveio: cannot synthesise the rich package:", err)
+			os.Exit(2)
+		}
+		nd, err := document.OpenFromMemory(io.NopCloser(bytes.NewReader(b)))
+		if err != nil {
+			return "err"
+		}
+		x.doc = nd
+		x.lastPath = ""
 	case "para":
 		d.AddParagraph("paragraph " + tok)
 	case "heading":
@@ -754,4 +768,35 @@ func runSaveIO(c Case, emit Emitter, onlyPerm bool) {
 			}
 		}
 	}
+}
+
+// sioRichForeign writes (with the synthesiser of the Foreign module) a package of another producer that holds parts
+// outside the main part's relationship closure.
+func sioRichForeign() ([]byte, error) {
+	dr := "word/_rels/document.xml.rels"
+	hr := "word/_rels/header2.xml.rels"
+	m := &fgnModel{Ns: "w", PkgNs: "default", HLink: "rId8", byName: map[string]fgnPart{}}
+	m.Parts = []fgnPart{
+		{N: "[Content_Types].xml", K: "content-types"}, {N: "_rels/.rels", K: "rels"},
+		{N: "word/document.xml", K: "main", Via: "override"}, {N: dr, K: "rels"},
+		{N: "word/styles.xml", K: "styles", Via: "override"},
+		{N: "word/theme/theme1.xml", K: "theme", Via: "override"},
+		{N: "word/header2.xml", K: "header", Via: "override"}, {N: hr, K: "rels"},
+		{N: "word/media/image2.png", K: "media", Via: "default"},
+		{N: "word/media/orphan.png", K: "media", Via: "default"},
+		{N: "docProps/core.xml", K: "docProps-core", Via: "override"},
+	}
+	for _, p := range m.Parts {
+		m.byName[p.N] = p
+	}
+	m.Rels = []fgnRel{
+		{Src: "_rels/.rels", ID: "rId1", Ty: "od/officeDocument", Tg: "word/document.xml"},
+		{Src: "_rels/.rels", ID: "rId2", Ty: "pk/metadata/core-properties", Tg: "docProps/core.xml"},
+		{Src: dr, ID: "rId1", Ty: "od/styles", Tg: "styles.xml"},
+		{Src: dr, ID: "rId2", Ty: "od/theme", Tg: "theme/theme1.xml"},
+		{Src: dr, ID: "rId3", Ty: "od/header", Tg: "header2.xml"},
+		{Src: hr, ID: "rId1", Ty: "od/image", Tg: "media/image2.png"},
+		{Src: hr, ID: "rId2", Ty: "od/hyperlink", Tg: "https://example.org/", Mode: "External"},
+	}
+	return fgnSynth(m)
 }
